@@ -46,6 +46,39 @@ def report_detached(rep, w, fn_name) -> bool:
     return hit
 
 
+def report_argmin_form(rep, w, fn_name) -> bool:
+    """Selection written as `values.append(criterion(k))` per candidate and `best = argmin/argmax(values) + offset`
+    after the loop: the offset must be the first candidate (the lower bound of the range). Only this necessary
+    condition is decided for that spelling; returns True when it is violated (reported)."""
+    from ..ir import subterms
+    from ..rules_heap import _sub, lin, lin_eq
+    hit = False
+    for li in w.loops.values():
+        if li.fn.name != fn_name or li.kind != "for" or li.domain is None or li.domain[0] != "call" \
+                or li.domain[1] != ("builtin", "range") or len(li.domain[2]) != 2:
+            continue
+        lo = li.domain[2][0]
+        apps = [e for e in w.events if e.kind == "call" and e.name == "append" and li.lid in e.loops
+                and e.target[1][0] == "alloc" and e.target[1][1] == "list"]
+        for a in apps:
+            L = a.target[1]
+            for e in w.events:
+                if e.seq <= li.last_seq or e.kind not in ("bind", "store"):
+                    continue
+                for t in subterms(e.value):
+                    if t[0] == "bin" and t[1] == "+":
+                        for x, off in ((t[2], t[3]), (t[3], t[2])):
+                            inner = [u for u in subterms(x) if u[0] == "call" and u[1] in (("mod", "numpy.argmin"), ("mod", "numpy.argmax"))
+                                     and u[2][:1] == (L,)]
+                            if inner and not lin_eq(_sub(lin(off), lin(lo)), {}):
+                                hit = True
+                                rep.ev("BEST-argmin-offset", e, False,
+                                       f"the position of the best value in the list is turned into a candidate with offset "
+                                       f"'{show(off)}' but the first candidate is '{show(lo)}': for any other lower bound the "
+                                       "selected neighbourhood size is shifted")
+    return hit
+
+
 def check_range(rep, fn, li, lo_ok, hi):
     dom = li.domain
     ok = False
@@ -79,7 +112,7 @@ def check_knn(chk, rep, repo):
     w = model_walk(repo, "KNNSupervisedOPF", "fit")
     G = ("attr", ("self",), "subgraph")
     loops = loop_of(w, "_learn")
-    if not loops and report_detached(rep, w, "_learn"):
+    if not loops and (report_detached(rep, w, "_learn") or report_argmin_form(rep, w, "_learn")):
         return 1
     if len(loops) != 1:
         raise AnalysisError(f"KNNSupervisedOPF._learn: expected one selection loop, found {len(loops)}")
@@ -140,7 +173,7 @@ def check_uns(chk, rep, repo):
     w = model_walk(repo, "UnsupervisedOPF", "fit")
     G = ("attr", ("self",), "subgraph")
     loops = loop_of(w, "_best_minimum_cut")
-    if not loops and report_detached(rep, w, "_best_minimum_cut"):
+    if not loops and (report_detached(rep, w, "_best_minimum_cut") or report_argmin_form(rep, w, "_best_minimum_cut")):
         return 1
     if len(loops) != 1:
         raise AnalysisError(f"UnsupervisedOPF._best_minimum_cut: expected one selection loop, found {len(loops)}")
@@ -220,7 +253,12 @@ def check(chk, repo):
         if o.rule in ("ARCS-init", "ARCS-acc", "ARCS-return", "ARCS-rank-maxima", "ARCS-plateaus"):
             chk.ob("REBUILD:" + o.rule, o.function, o.construct, o.ok, o.detail, o.file, o.line)
     check_typestate(chk, rep, repo)
+    from .c12 import check_destroy
+    check_destroy(rep, repo)
     from ..common import check_model_premises
     check_model_premises(rep, repo)
+    # every forest is grown through the priority queue: its structural rules are a premise here too
+    from ..rules_heap import check_heap
+    check_heap(rep, repo, "HEAP-")
     chk.undecided.append("'highest validation accuracy' / 'lowest cut' as numbers (consequence of the control structure)")
     chk.assumptions += ["opf_accuracy is in [0, 1] (C20); the normalised cut is finite and >= 0"]
